@@ -292,10 +292,14 @@ theorem tree_negative_facts :
     SdnsVerif.Gen.C04.alias_soamin60_s ≤ 60 := by
   decide
 
-/-- **The ceilings of the proof and cut indexes stay within 24 h.** -/
+/-- **The ceilings of the proof and cut indexes stay within 24 h** — also when
+the operator configures `expire` (the negative-cache expiry) above 24 h (the
+`_big` facts are read from a cache built with `expire` = one week). -/
 theorem tree_index_ceilings :
     SdnsVerif.Gen.C04.max_denial_proof_ns ≤ 86400000000000 ∧
-    SdnsVerif.Gen.C04.hist_cut_max_ns ≤ 86400000000000 := by
+    SdnsVerif.Gen.C04.hist_cut_max_ns ≤ 86400000000000 ∧
+    SdnsVerif.Gen.C04.hist_cut_max_big_ns ≤ 86400000000000 ∧
+    SdnsVerif.Gen.C04.hist_proof_max_big_ns ≤ 86400000000000 := by
   decide
 
 /-- `admission_upper_bound` for the constants of the current tree. -/
@@ -705,6 +709,42 @@ theorem proof_piece_expires_with_its_own_soa (hardMax now maxTTL : Int) (cut : O
           · cases hb
           · simp only [Option.some.injEq] at ha hb; omega
 
+/-- **Every piece of an admitted proof is bounded by the delegation lease
+itself** — the proof RRset's entry too, not only through the zone's SOA entry
+(which a later admission replaces): both expiries are at most the lease and at
+most `hardMax` after `now`. -/
+theorem proof_pieces_bounded_by_lease (hardMax now maxTTL : Int) (cut : Option Int)
+    (common set : List ProofRR) (a b : Int)
+    (h : proofAdmit hardMax now maxTTL cut common set = some (a, b)) :
+    (∀ c, cut = some c → a ≤ c ∧ b ≤ c) ∧ a - now ≤ hardMax ∧ b - now ≤ hardMax := by
+  unfold proofAdmit at h
+  cases ha : denialProofExpiry hardMax now maxTTL cut common with
+  | none => rw [ha] at h; cases h
+  | some a' =>
+    cases hb : denialProofExpiry hardMax now maxTTL cut (common ++ set) with
+    | none => rw [ha, hb] at h; cases h
+    | some b' =>
+      rw [ha, hb] at h
+      simp only [Option.some.injEq, Prod.mk.injEq] at h
+      obtain ⟨rfl, rfl⟩ := h
+      have pa := proof_unfloored hardMax now maxTTL cut common a' ha
+      have pb := proof_unfloored hardMax now maxTTL cut (common ++ set) b' hb
+      exact ⟨fun c hc => ⟨pa.2.2.2 c hc, pb.2.2.2 c hc⟩, pa.2.1, pb.2.1⟩
+
+/-- **A subtree cut lives at most 24 h under either configuration of the
+tree** (`expire` = 7200 s and `expire` = one week): whatever the proof says,
+the recorded lifetime is within the index ceiling, which the regenerated facts
+pin below 24 h. -/
+theorem cut_lifetime_capped_tree (big : Bool) (now : Int) (soaTtl soaMin : Nat) (recs : List ProofRR)
+    (cut : Option Int) (ttl : Int)
+    (h : cutRecordTTL (if big then (SdnsVerif.Gen.C04.hist_cut_max_big_ns : Int) else SdnsVerif.Gen.C04.hist_cut_max_ns)
+          now soaTtl soaMin recs cut = some ttl) :
+    ttl ≤ 86400 * S := by
+  have hc := (cut_unfloored _ now soaTtl soaMin recs cut ttl h).2.1
+  have hb : (if big then (SdnsVerif.Gen.C04.hist_cut_max_big_ns : Int) else SdnsVerif.Gen.C04.hist_cut_max_ns) ≤ 86400 * S := by
+    cases big <;> decide
+  omega
+
 /-- both statements under the name the design uses. -/
 theorem cut_and_proof_unfloored (maxTTL hardMax now : Int) (soaTtl soaMin : Nat) (recs : List ProofRR)
     (cut : Option Int) :
@@ -1024,6 +1064,11 @@ example : collectWireChase (41 * S) [{ stored := 40 * S, ttl := 600 * S, cut := 
 -- a cut below the floor: SOA minimum 2 s
 example : cutRecordTTL (7200 * S) 0 300 2 [] none = some (2 * S) := by decide
 example : denialProofExpiry (10800 * S) 0 (600 * S) (some (3 * S)) [{ rr := { ttl := 300 } }] = some (3 * S) := by decide
+
+-- a proof admitted under a 20 s lease: both pieces end with it; a week-long proof is cut at the 24 h ceiling
+example : proofAdmit (10800 * S) 0 (7200 * S) (some (20 * S)) [{ rr := { ttl := 300, kind := .soa 300 } }] [{ rr := { ttl := 300 } }]
+    = some (20 * S, 20 * S) := by decide
+example : cutRecordTTL (86400 * S) 0 600000 600000 [{ rr := { ttl := 600000 } }] none = some (86400 * S) := by decide
 
 -- an alias adopting a record-less NXDOMAIN at 7 s is bound to 12 s; one with an SOA (minimum 30) to 30 s
 example : adoptedDenialBound (exCfg 0) {} (7 * S) = 12 * S := by decide
